@@ -127,17 +127,32 @@ def lin_points(case, trace):
 
 
 def c26_threads(case, trace, final, observers=True):
-    """observers=False (line-granular runs, where an unlocked read can land in the middle of another thread's lock
-    block): the values returned by the pure observers get/len/contains - which the property does not talk about -
-    are not compared with the atomic reference"""
+    """Every op takes effect at its lock block on the container (lock blocks are totally ordered by acquisition), an op
+    without one at its unlocked read.  The pure observers get/len/contains are single unlocked reads: when such a read
+    lands INSIDE another thread's open lock block (only possible in line-granular runs) it may see the attribute before or
+    after that block's single write to it, so both the reference value before the block and after it are admissible;
+    outside any open block exactly the reference value is.  (`observers=False` skips the observer comparison.)"""
+    import copy
+
     ref = RefContainer(case["cls"], case.get("init", []))
     pts = lin_points(case, trace)
     expect = {}
     done = Counter()
+    open_block = None  # (tid, reference state before that block) while a lock block on the container is open
     for g, (tid, ev) in enumerate(trace):
+        if ev[0] == "L" and ev[1] == 0:
+            open_block = (tid, copy.deepcopy(ref))
+        if ev[0] == "U" and ev[1] == 0 and open_block is not None and open_block[0] == tid:
+            open_block = None
         if g in pts:
             t, op = pts[g]
-            expect.setdefault(t, []).append((op, ref.apply(op)))
+            if op[0] in ("get", "len", "contains"):
+                adm = [ref.apply(op)]
+                if open_block is not None and open_block[0] != t:
+                    adm.append(copy.deepcopy(open_block[1]).apply(op))
+                expect.setdefault(t, []).append((op, adm))
+            else:
+                expect.setdefault(t, []).append((op, [ref.apply(op)]))
         if ev[0] == "D":
             i = ev[1]
             if done[i] + 1 > ref.released[i]:
@@ -147,14 +162,14 @@ def c26_threads(case, trace, final, observers=True):
             done[i] += 1
         if ev[0] in ("ret", "raise"):
             if tid in expect and expect[tid]:
-                op, exp = expect[tid].pop(0)
+                op, adm = expect[tid].pop(0)
                 got = ["raise"] if ev[0] == "raise" else ["ret", ev[1]]
                 if not observers and op[0] in ("get", "len", "contains"):
                     continue
-                if got != exp:
-                    if exp == ["raise"]:
+                if got not in adm:
+                    if adm == [["raise"]]:
                         return f"event {g}: thread {tid} {op}: second assignment to a not-disposed SingleAssignmentDisposable was accepted"
-                    return f"event {g}: thread {tid} {op} returned {got}, atomic semantics at its linearization point demands {exp}"
+                    return f"event {g}: thread {tid} {op} returned {got}, atomic semantics at its linearization point admits {adm}"
     for i, c in enumerate(final["cnt"]):
         if c != ref.released[i]:
             return f"at the end item {i} was disposed {c}x, released by the container {ref.released[i]}x" + (" (leak)" if c < ref.released[i] else "")
@@ -163,6 +178,115 @@ def c26_threads(case, trace, final, observers=True):
     now = final["items"] if "items" in final else ([] if final["current"] is None else [final["current"]])
     if sorted(now) != sorted(ref.held):
         return f"at the end the container holds {now}, expected {ref.held}"
+    return None
+
+
+# ------------------------------------------------------------------------------------------------ nested (C26)
+class RefNest:
+    """CompositeDisposable holding one SerialDisposable, as atomic operations (property text, transitively)"""
+
+    def __init__(self):
+        self.cdisposed = False
+        self.has = True
+        self.ser = RefContainer("serial")
+        self.via = 0  # serial.dispose() calls made by the composite
+
+    def comp_part(self, op):
+        """the part of dispC / removeS that happens in the composite; -> (expected result, owes serial.dispose())"""
+        if op[0] == "dispC":
+            if self.cdisposed:
+                return ["ret", None], False
+            self.cdisposed = True
+            owes, self.has = self.has, False
+            return ["ret", None], owes
+        if op[0] == "removeS":
+            if self.cdisposed or not self.has:
+                return ["ret", False], False
+            self.has = False
+            return ["ret", True], True
+        raise ValueError(op)
+
+    def serial_part(self, op):
+        if op[0] == "setS":
+            self.ser.apply(["set", op[1]])
+        else:
+            if op[0] in ("dispC", "removeS"):
+                self.via += 1
+            self.ser.apply(["dispose"])
+
+
+def _nest_check_counts(ref, cnt, where):
+    for i, c in enumerate(cnt):
+        if c > ref.ser.released[i]:
+            return f"{where}: leaf {i} disposed {c}x but only {ref.ser.released[i]} of its assignments were released (disposed while held / twice)"
+        if c < ref.ser.released[i]:
+            return f"{where}: leaf {i} was released {ref.ser.released[i]}x but disposed only {c}x (leak)"
+    return None
+
+
+def nest_history(case, out):
+    ref = RefNest()
+    for n, (op, (res, obs)) in enumerate(zip(case["threads"][0], out)):
+        if op[0] in ("dispC", "removeS"):
+            exp, owes = ref.comp_part(op)
+            if owes:
+                ref.serial_part(op)
+        else:
+            exp = ["ret", None]
+            ref.serial_part(op)
+        if res != exp:
+            return f"call {n} {op}: returned {res}, expected {exp}"
+        v = _nest_check_counts(ref, obs["cnt"], f"after call {n} {op}")
+        if v:
+            return v
+        if obs["is_disposed"] != ref.cdisposed or obs["serial_disposed"] != ref.ser.disposed:
+            return f"after call {n} {op}: composite/serial is_disposed = {obs['is_disposed']}/{obs['serial_disposed']}, expected {ref.cdisposed}/{ref.ser.disposed}"
+    return None
+
+
+def nest_threads(case, trace, final):
+    """the composite part of an op takes effect at its lock block on the composite (or its pre-check), the serial part at
+    the serial's lock block, wherever and on whichever thread that runs; every leaf disposal must be justified by then"""
+    ref = RefNest()
+    ops = split_ops(case, trace)
+    owner = {}
+    for tid, lst in ops.items():
+        for op, idxs in lst:
+            l0 = [g for g in idxs if trace[g][1][0] == "L" and trace[g][1][1] == 0]
+            r0 = [g for g in idxs if trace[g][1][0] == "R"]
+            cp = l0[-1] if l0 else (r0[-1] if r0 else None)
+            for g in idxs:
+                owner[g] = (op, g == cp)
+    expect = {}
+    done = Counter()
+    for g, (tid, ev) in enumerate(trace):
+        op, is_cp = owner.get(g, (["?"], False))
+        if is_cp and op[0] in ("dispC", "removeS"):
+            exp, owes = ref.comp_part(op)
+            expect.setdefault(tid, []).append((op, exp))
+        if ev[0] == "L" and ev[1] == 1:
+            if op[0] in ("setS", "dispS"):
+                expect.setdefault(tid, []).append((op, ["ret", None]))
+            ref.serial_part(op)
+            if ref.via > 1:
+                return f"event {g}: the composite calls serial.dispose() a second time"
+        if ev[0] == "D":
+            i = ev[1]
+            if done[i] + 1 > ref.ser.released[i]:
+                return f"event {g}: thread {tid} disposes leaf {i} (dispose #{done[i] + 1}) but only {ref.ser.released[i]} of its assignments were released so far"
+            done[i] += 1
+        if ev[0] in ("ret", "raise") and expect.get(tid):
+            eop, exp = expect[tid].pop(0)
+            got = ["raise"] if ev[0] == "raise" else ["ret", ev[1]]
+            if got != exp:
+                return f"event {g}: thread {tid} {eop} returned {got}, expected {exp}"
+    v = _nest_check_counts(ref, final["cnt"], "at the end")
+    if v:
+        return v
+    if final["is_disposed"] != ref.cdisposed or final["serial_disposed"] != ref.ser.disposed or final["has_serial"] != ref.has:
+        return f"at the end composite disposed/has serial/serial disposed = {final['is_disposed']}/{final['has_serial']}/{final['serial_disposed']}, expected {ref.cdisposed}/{ref.has}/{ref.ser.disposed}"
+    if ref.cdisposed and not ref.ser.disposed:
+        return "at the end the composite is disposed but the serial it held is not"
     return None
 
 
